@@ -422,7 +422,7 @@ Utf8Body == LET c == its[1] n == its[2]
 
 Laws == ph = "case" =>
   LET r == Lex(b) IN
-  CASE Mode \in ItemModes -> LawSeqR(its, r) /\ LawBytesR(b, r)
+  CASE Mode \in ItemModes -> LawSeqR(its, r) /\ LawBytesR(b, r) /\ LawStretchR(b, r)
     [] Mode = "utf8"   -> Utf8Law(its[1], Utf8Body) /\ LawLossy(Utf8Body) /\ LawBytesR(b, r)
     [] Mode = "scalar" -> LawScalar(its[1]) /\ r.st = "ok" /\ r.toks[1].val = <<its[1]>>
     [] OTHER -> LawBytesR(b, r)
